@@ -224,8 +224,16 @@ fn search_decl_references_with_ctx<'a>(
         .get_decl(&decl_id)?;
     if decl.is_local() {
         let document = semantic_model.get_document();
+        // `local x <const>`: the declaration spans the attribute, the reference is its name token
+        let decl_range = decl.get_range();
+        let name_len = rowan::TextSize::of(decl.get_name());
+        let decl_name_range = if name_len < decl_range.len() {
+            rowan::TextRange::at(decl_range.start(), name_len)
+        } else {
+            decl_range
+        };
         if ctx.include_declaration
-            && let Some(location) = document.to_lsp_location(decl.get_range())
+            && let Some(location) = document.to_lsp_location(decl_name_range)
         {
             result.push(location);
         }
